@@ -140,6 +140,24 @@ Theorem C02_model_table_sound (G : grammar) (prio : list Z) (rootnt start tEND f
 Proof. exact (model_table_sound_user G prio rootnt start tEND fuel A rel LA R qe fuel' w t). Qed.
 Print Assumptions C02_model_table_sound.
 
+(* NOT PROVED - kept as the full statement of the completeness clause ("accepts all of them
+   when conflict-free").  It is validated, not proved: every generated grammar's look-ahead
+   sets and table rows are compared with an independent canonical-LR(1)-merge computation and
+   every driven input with an Earley-style recogniser (harness/props/C02.py).  The sound half
+   is C02_model_table_sound / C02_driver_sound above. *)
+Definition conflict_free (A : lr0) (LA : list (nat * nat * nat)) : Prop :=
+  forall q s, In s (la_terms LA q) -> trans A q (T s) = None /\ length (la_rules LA q s) <= 1.
+
+Definition C02_complete_full_statement : Prop :=
+  forall (G : grammar) (prio : list Z) (rootnt start tEND fuel : nat)
+         (A : lr0) (rel : relations) (LA : list (nat * nat * nat)) (R : rows) (qe : nat) (w : list nat),
+  compute_lalr (G ++ [mkRule rootnt [NT start]]) prio [length G] tEND fuel = ATable A rel LA R ->
+  (forall r, In r G -> ~ In (NT rootnt) (rhs r) /\ ~ In (T tEND) (rhs r)) -> start <> rootnt ->
+  end_state (G ++ [mkRule rootnt [NT start]]) [length G] A 0 = Some qe ->
+  conflict_free A LA ->
+  derives G nat (tmatch nat (fun k => k)) [NT start] w -> ~ In tEND w ->
+  exists fuel' t, parse nat (fun k => k) (ptable_of_rows R 0 qe) fuel' w tEND = Accepted t.
+
 (* Non-vacuity: the grammar of finding F13 (LALR(1), shared core {b: B., e2: B.}):
      start: a E | c | Y e2 D    a: Y b    c: Y a D    b: B    e2: B
    terminals $END=0 E=1 Y=2 D=3 B=4; non-terminals start=0 a=1 c=2 b=3 e2=4 $root=5.
